@@ -1,5 +1,6 @@
 SPECIFICATION Spec
 CONSTANTS N = 4
+ MaxMult = 2
  Closed = FALSE
 INVARIANT CellsDisjoint
 CHECK_DEADLOCK FALSE
